@@ -1,8 +1,11 @@
-(* SubEventsProofs.v — lemmas about the subscription machine of SubEvents.v (C27). *)
+(* SubEventsProofs.v — lemmas about the subscription machine of SubEvents.v (C27):
+   the shared error list agrees with the per-event lists as long as event
+   executions of different root fields do not overlap (invariant over all
+   schedules); one root field or ready resolvers never overlap; instantiation
+   without gates; witnesses. *)
 From AG Require Import SubEvents.
 Open Scope N_scope.
 
-(* ------------------------------------------------------------- basic facts --- *)
 Lemma split_at_spec {A} : forall i (l : list A) p y q,
   split_at i l = Some (p, y, q) -> l = p ++ y :: q.
 Proof.
@@ -27,15 +30,12 @@ Qed.
 Lemma own_all_focus pre x post : own_all (pre ++ x :: post) = own_all pre ++ own_of x ++ own_all post.
 Proof. unfold own_all. rewrite flat_map_app. reflexivity. Qed.
 
-(* the machine state agrees with the per-event lists as long as no overlap happened *)
 Definition Inv (st : state) : Prop := st_overlap st = false -> st_shared st = own_all (st_ss st).
 
 Definition good (o : obs2) : Prop :=
   match o with ORes2 _ _ _ _ t w => t = w | OEnd2 => True end.
-
 Definition good_out (o : sout) : Prop := match o with SYield r => good r | _ => True end.
 
-(* ---------------------------------------------------- one event execution --- *)
 Lemma run_exec_inv i s chan x shared c s' sh tr o :
   run_exec i s chan x shared = (s', sh, tr, o) ->
   shared = x_own x ->
@@ -51,21 +51,532 @@ Qed.
 
 Lemma poll_stream_inv i c s shared s' sh tr ran bad o :
   poll_stream i c s shared = (s', sh, tr, ran, bad, o) ->
-  good_out o /\
-  (ran = true -> shared = own_of (c, s) -> sh = own_of (c, s')) /\
-  (ran = false -> sh = shared /\ own_of (c, s') = own_of (c, s)).
+  (ran = true -> shared = own_of (c, s) -> sh = own_of (c, s') /\ good_out o) /\
+  (ran = false -> sh = shared /\ own_of (c, s') = own_of (c, s) /\ good_out o).
 Proof.
   unfold poll_stream.
   destruct (s_dead s).
-  { intros H; inversion H; subst. repeat split; try discriminate; reflexivity. }
+  { intros H; inversion H; subst. split; [discriminate|]. intros _. repeat split. }
   destruct (s_errpending s).
-  { intros H; inversion H; subst. repeat split; try discriminate; reflexivity. }
+  { intros H; inversion H; subst. split; [discriminate|]. intros _. repeat split. }
   destruct (negb (s_started s) && c_fail c).
-  { intros H; inversion H; subst. repeat split; try discriminate; reflexivity. }
+  { intros H; inversion H; subst. split; [discriminate|]. intros _. repeat split. }
   destruct (s_exec s) as [x|] eqn:Ex.
   - destruct (run_exec i s (s_chan s) x shared) as [[[s1 sh1] tr1] o1] eqn:Er.
     intros H; inversion H; subst.
-    split; [|split].
-    + eapply (run_exec_inv _ _ _ _ _ c) in Er; [apply Er|].
-      (* goodness does not depend on the hypothesis on [shared] when it holds; otherwise argue directly *)
-      Abort.
+    split; [|discriminate]. intros _ Hs.
+    eapply run_exec_inv in Er; [exact Er|]. rewrite Hs. unfold own_of. simpl. rewrite Ex. reflexivity.
+  - destruct (s_chan s) as [|ev r] eqn:Ec.
+    + destruct (s_closed s); intros H; inversion H; subst; (split; [discriminate|]); intros _;
+        unfold own_of; simpl; rewrite Ex; repeat split.
+    + match goal with |- context [run_exec i s r ?x shared] => destruct (run_exec i s r x shared) as [[[s1 sh1] tr1] o1] eqn:Er end.
+      intros H; inversion H; subst.
+      split; [|discriminate]. intros _ Hs.
+      eapply run_exec_inv in Er; [exact Er|]. rewrite Hs. unfold own_of. simpl. rewrite Ex. reflexivity.
+Qed.
+
+Lemma poll_head_inv st st' os :
+  Inv st -> poll_head st = (st', os) ->
+  Inv st' /\ (st_overlap st' = false -> st_overlap st = false /\ Forall good os).
+Proof.
+  unfold poll_head. intros HI.
+  destruct (st_queue st) as [|i q].
+  { intros H; inversion H; subst. split; [exact HI|]. intros E; split; [exact E|constructor]. }
+  destruct (split_at i (st_ss st)) as [[[pre [c s]] post]|] eqn:Es.
+  2:{ intros H; inversion H; subst. split; [exact HI|]. simpl. intros E; split; [exact E|constructor]. }
+  apply split_at_spec in Es.
+  destruct (poll_stream i c s (st_shared st)) as [[[[[s' sh] tr] ran] bad] o] eqn:Ep.
+  apply poll_stream_inv in Ep. destruct Ep as [Hran Hnot].
+  assert (Hcore :
+    forall q',
+      let st1 := {| st_ss := pre ++ (c, s') :: post; st_queue := q'; st_shared := sh; st_trace := st_trace st ++ tr;
+                    st_overlap := st_overlap st || (ran && (existsb busy pre || existsb busy post));
+                    st_bad := st_bad st || bad; st_done := st_done st |} in
+      Inv st1 /\ (st_overlap st1 = false -> st_overlap st = false /\ good_out o)).
+  { intros q' st1. unfold Inv, st1; simpl.
+    assert (Hk : st_overlap st || (ran && (existsb busy pre || existsb busy post)) = false ->
+                 st_overlap st = false /\ sh = own_all (pre ++ (c, s') :: post) /\ good_out o).
+    { intros E. apply orb_false_iff in E. destruct E as [E1 E2]. split; [exact E1|].
+      specialize (HI E1). rewrite Es in HI. rewrite own_all_focus in HI. rewrite own_all_focus.
+      destruct ran.
+      - simpl in E2. apply orb_false_iff in E2. destruct E2 as [Ea Eb].
+        rewrite (idle_own _ Ea), (idle_own _ Eb) in *. simpl in *. rewrite app_nil_r in *.
+        destruct (Hran eq_refl HI) as [H1 H2]. split; assumption.
+      - destruct (Hnot eq_refl) as [H1 [H2 H3]]. rewrite H2, H1. split; [exact HI|exact H3]. }
+    split.
+    - intros E. apply Hk in E. tauto.
+    - intros E. apply Hk in E. tauto. }
+  destruct o as [r| |]; intros H; inversion H; subst; clear H.
+  - destruct (Hcore (q ++ [i])) as [A B]. split; [exact A|]. intros E. destruct (B E) as [B1 B2].
+    split; [exact B1|]. constructor; [exact B2|constructor].
+  - destruct (Hcore q) as [A B]. split; [exact A|]. intros E. destruct (B E) as [B1 B2]. split; [exact B1|constructor].
+  - destruct (Hcore q) as [A B]. split; [exact A|]. intros E. destruct (B E) as [B1 B2]. split; [exact B1|constructor].
+Qed.
+
+Lemma drain_inv : forall fuel st st' os,
+  Inv st -> drain fuel st = (st', os) ->
+  Inv st' /\ (st_overlap st' = false -> st_overlap st = false /\ Forall good os).
+Proof.
+  induction fuel as [|f IH]; intros st st' os HI; simpl.
+  { intros H; inversion H; subst. split; [exact HI|]. intros E; split; [exact E|constructor]. }
+  destruct (st_queue st) eqn:Eq.
+  { intros H; inversion H; subst. split; [exact HI|]. intros E; split; [exact E|constructor]. }
+  destruct (poll_head st) as [st1 o1] eqn:E1.
+  destruct (drain f st1) as [st2 o2] eqn:E2.
+  intros H; inversion H; subst.
+  destruct (poll_head_inv _ _ _ HI E1) as [I1 G1].
+  destruct (IH _ _ _ I1 E2) as [I2 G2].
+  split; [exact I2|]. intros E. destruct (G2 E) as [Ea Eb]. destruct (G1 Ea) as [Ec Ed].
+  split; [exact Ec|]. apply Forall_app. split; assumption.
+Qed.
+
+Lemma upd_stream_inv st i f :
+  (forall c s, own_of (c, fst (f c s)) = own_of (c, s)) ->
+  Inv st -> Inv (upd_stream st i f) /\ st_overlap (upd_stream st i f) = st_overlap st.
+Proof.
+  intros Hf HI. unfold upd_stream.
+  destruct (split_at i (st_ss st)) as [[[pre [c s]] post]|] eqn:Es; [|split; [exact HI|reflexivity]].
+  apply split_at_spec in Es.
+  destruct (f c s) as [s' wake] eqn:Ef. split; [|reflexivity].
+  unfold Inv; simpl. intros E. rewrite (HI E), Es, !own_all_focus.
+  specialize (Hf c s). rewrite Ef in Hf. simpl in Hf. rewrite Hf. reflexivity.
+Qed.
+
+Lemma step_inv st a st' os :
+  Inv st -> step st a = (st', os) ->
+  Inv st' /\ (st_overlap st' = false -> st_overlap st = false /\ Forall good os).
+Proof.
+  intros HI. destruct a as [k ev|k|k c|]; simpl.
+  - intros H; inversion H; subst; clear H.
+    destruct (find_key k (st_ss st)) as [i|].
+    2:{ split; [exact HI|]. intros E; split; [exact E|constructor]. }
+    match goal with |- context [upd_stream st i ?f] => destruct (upd_stream_inv st i f) as [A B] end.
+    { intros c s. destruct (s_dead s || s_closed s || s_errpending s); reflexivity. }
+    { exact HI. }
+    split; [exact A|]. rewrite B. intros E; split; [exact E|constructor].
+  - intros H; inversion H; subst; clear H.
+    destruct (find_key k (st_ss st)) as [i|].
+    2:{ split; [exact HI|]. intros E; split; [exact E|constructor]. }
+    match goal with |- context [upd_stream st i ?f] => destruct (upd_stream_inv st i f) as [A B] end.
+    { intros c s. destruct (s_dead s || s_closed s || s_errpending s); reflexivity. }
+    { exact HI. }
+    split; [exact A|]. rewrite B. intros E; split; [exact E|constructor].
+  - intros H; inversion H; subst; clear H.
+    destruct (find_key k (st_ss st)) as [i|].
+    2:{ split; [exact HI|]. intros E; split; [exact E|constructor]. }
+    match goal with |- context [upd_stream st i ?f] => destruct (upd_stream_inv st i f) as [A B] end.
+    { intros c0 s. unfold own_of. simpl. destruct (s_exec s) eqn:Ex; simpl; [reflexivity|rewrite Ex; reflexivity]. }
+    { exact HI. }
+    split; [exact A|]. rewrite B. intros E; split; [exact E|constructor].
+  - destruct (st_done st).
+    { intros H; inversion H; subst. split; [exact HI|]. intros E; split; [exact E|constructor]. }
+    destruct (drain (drain_fuel st) st) as [st1 os1] eqn:Ed.
+    destruct (drain_inv _ _ _ _ HI Ed) as [I1 G1].
+    destruct (all_dead st1 && match st_queue st1 with [] => true | _ => false end);
+      intros H; inversion H; subst; clear H.
+    + split; [exact I1|]. simpl. intros E. destruct (G1 E) as [Ea Eb]. split; [exact Ea|].
+      apply Forall_app. split; [exact Eb|]. constructor; [exact I|constructor].
+    + split; [exact I1|exact G1].
+Qed.
+
+Lemma run_inv : forall acts st st' oss,
+  Inv st -> run st acts = (st', oss) ->
+  Inv st' /\ (st_overlap st' = false -> st_overlap st = false /\ Forall (Forall good) oss).
+Proof.
+  induction acts as [|a r IH]; intros st st' oss HI; simpl.
+  { intros H; inversion H; subst. split; [exact HI|]. intros E; split; [exact E|constructor]. }
+  destruct (step st a) as [st1 os] eqn:E1.
+  destruct (run st1 r) as [st2 oss2] eqn:E2.
+  intros H; inversion H; subst; clear H.
+  destruct (step_inv _ _ _ _ HI E1) as [I1 G1].
+  destruct (IH _ _ _ I1 E2) as [I2 G2].
+  split; [exact I2|]. intros E. destruct (G2 E) as [Ea Eb]. destruct (G1 Ea) as [Ec Ed].
+  split; [exact Ec|]. destruct a; try exact Eb. constructor; assumption.
+Qed.
+
+Lemma Inv_init cfg : Inv (init cfg).
+Proof.
+  unfold Inv, init; simpl. intros _. induction cfg as [|c l IH]; [reflexivity|].
+  unfold own_all in *. simpl. exact IH.
+Qed.
+
+Lemma good_views o : good o -> view_today o = view_own o.
+Proof. destruct o; simpl; [intros ->; reflexivity|reflexivity]. Qed.
+
+(* every response of a run without overlap carries exactly the errors its own event raised *)
+Theorem atomic_run cfg acts :
+  st_overlap (fst (run (init cfg) acts)) = false ->
+  Forall (Forall good) (snd (run (init cfg) acts)) /\
+  map (map view_today) (snd (run (init cfg) acts)) = map (map view_own) (snd (run (init cfg) acts)).
+Proof.
+  destruct (run (init cfg) acts) as [st oss] eqn:E. simpl. intros Ho.
+  destruct (run_inv _ _ _ _ (Inv_init cfg) E) as [_ G]. destruct (G Ho) as [_ F].
+  split; [exact F|].
+  clear E G. induction F as [|os oss Hos _ IH]; [reflexivity|]. simpl. f_equal; [|exact IH].
+  clear IH. induction Hos as [|o os Ho' _ IH]; [reflexivity|]. simpl. f_equal; [apply good_views; exact Ho'|exact IH].
+Qed.
+
+(* ------------------------------------------------ a single root field --- *)
+Lemma poll_head_single st st' os :
+  (length (st_ss st) <= 1)%nat -> poll_head st = (st', os) ->
+  length (st_ss st') = length (st_ss st) /\ st_overlap st' = st_overlap st.
+Proof.
+  unfold poll_head. intros HL.
+  destruct (st_queue st) as [|i q]; [intros H; inversion H; subst; split; reflexivity|].
+  destruct (split_at i (st_ss st)) as [[[pre [c s]] post]|] eqn:Es.
+  2:{ intros H; inversion H; subst. split; reflexivity. }
+  apply split_at_spec in Es. rewrite Es in HL. rewrite app_length in HL. simpl in HL.
+  assert (pre = []) by (destruct pre; [reflexivity|simpl in HL; lia]).
+  assert (post = []) by (destruct post; [reflexivity|simpl in HL; lia]). subst pre post.
+  destruct (poll_stream i c s (st_shared st)) as [[[[[s' sh] tr] ran] bad] o].
+  destruct o; intros H; inversion H; subst; simpl; rewrite Es; simpl;
+    rewrite andb_false_r, orb_false_r; split; reflexivity.
+Qed.
+
+Lemma drain_single : forall fuel st st' os,
+  (length (st_ss st) <= 1)%nat -> drain fuel st = (st', os) ->
+  length (st_ss st') = length (st_ss st) /\ st_overlap st' = st_overlap st.
+Proof.
+  induction fuel as [|f IH]; intros st st' os HL; simpl.
+  { intros H; inversion H; subst. split; reflexivity. }
+  destruct (st_queue st) eqn:Eq.
+  { intros H; inversion H; subst. split; reflexivity. }
+  destruct (poll_head st) as [st1 o1] eqn:E1.
+  destruct (drain f st1) as [st2 o2] eqn:E2.
+  intros H; inversion H; subst.
+  destruct (poll_head_single _ _ _ HL E1) as [L1 O1].
+  assert (HL1 : (length (st_ss st1) <= 1)%nat) by (rewrite L1; exact HL).
+  destruct (IH _ _ _ HL1 E2) as [L2 O2].
+  split; congruence.
+Qed.
+
+Lemma upd_stream_shape st i f :
+  length (st_ss (upd_stream st i f)) = length (st_ss st) /\ st_overlap (upd_stream st i f) = st_overlap st.
+Proof.
+  unfold upd_stream.
+  destruct (split_at i (st_ss st)) as [[[pre [c s]] post]|] eqn:Es; [|split; reflexivity].
+  apply split_at_spec in Es. destruct (f c s) as [s' wake]. simpl. rewrite Es, !app_length. simpl. split; reflexivity.
+Qed.
+
+Lemma step_single st a st' os :
+  (length (st_ss st) <= 1)%nat -> step st a = (st', os) ->
+  length (st_ss st') = length (st_ss st) /\ st_overlap st' = st_overlap st.
+Proof.
+  intros HL. destruct a as [k ev|k|k c|]; simpl.
+  - intros H; inversion H; subst. destruct (find_key k (st_ss st)); [apply upd_stream_shape|split; reflexivity].
+  - intros H; inversion H; subst. destruct (find_key k (st_ss st)); [apply upd_stream_shape|split; reflexivity].
+  - intros H; inversion H; subst. destruct (find_key k (st_ss st)); [apply upd_stream_shape|split; reflexivity].
+  - destruct (st_done st); [intros H; inversion H; subst; split; reflexivity|].
+    destruct (drain (drain_fuel st) st) as [st1 os1] eqn:Ed.
+    destruct (drain_single _ _ _ _ HL Ed) as [L1 O1].
+    destruct (all_dead st1 && match st_queue st1 with [] => true | _ => false end);
+      intros H; inversion H; subst; simpl; split; assumption.
+Qed.
+
+Lemma run_single : forall acts st st' oss,
+  (length (st_ss st) <= 1)%nat -> run st acts = (st', oss) -> st_overlap st' = st_overlap st.
+Proof.
+  induction acts as [|a r IH]; intros st st' oss HL; simpl.
+  { intros H; inversion H; subst. reflexivity. }
+  destruct (step st a) as [st1 os] eqn:E1.
+  destruct (run st1 r) as [st2 oss2] eqn:E2.
+  intros H; inversion H; subst.
+  destruct (step_single _ _ _ _ HL E1) as [L1 O1].
+  assert (HL1 : (length (st_ss st1) <= 1)%nat) by (rewrite L1; exact HL).
+  rewrite (IH _ _ _ HL1 E2). exact O1.
+Qed.
+
+Theorem single_stream_no_overlap cfg acts :
+  (length cfg <= 1)%nat -> st_overlap (fst (run (init cfg) acts)) = false.
+Proof.
+  intros HL. destruct (run (init cfg) acts) as [st oss] eqn:E. simpl.
+  assert (HL0 : (length (st_ss (init cfg)) <= 1)%nat) by (simpl; rewrite map_length; exact HL).
+  rewrite (run_single _ _ _ _ HL0 E). reflexivity.
+Qed.
+
+(* ------------------------------------------------------- ready resolvers --- *)
+Definition ready_plan (pl : plan) : Prop := forallb (fun it => negb (it_gated it)) (p_items pl) = true.
+Definition ready_conf (c : sconf) : Prop := forall ev, ready_plan (c_plan c ev).
+
+Lemma poll_items_ready : forall l,
+  forallb (fun it => negb (it_gated it)) l = true ->
+  snd (poll_items (map (fun it => (it, IFresh)) l)) <> JPend.
+Proof.
+  induction l as [|it l IH]; simpl; [discriminate|].
+  intros H. apply andb_true_iff in H. destruct H as [Hg Hl].
+  apply negb_true_iff in Hg. rewrite Hg.
+  destruct (it_val it); [|simpl; discriminate].
+  specialize (IH Hl). destruct (poll_items (map (fun it0 => (it0, IFresh)) l)) as [[[r' es] tr] j]. exact IH.
+Qed.
+
+Lemma run_exec_ready i s chan pl ev shared s' sh tr o :
+  ready_plan pl ->
+  run_exec i s chan {| x_plan := pl; x_ev := ev; x_items := map (fun it => (it, IFresh)) (p_items pl); x_own := [] |} shared
+    = (s', sh, tr, o) ->
+  s_exec s' = None.
+Proof.
+  intros Hr. unfold run_exec, step_exec. simpl.
+  destruct (p_direct pl) as [[[v es] tr0]|].
+  - destruct v; [intros H; inversion H; reflexivity|].
+    destruct (p_catch pl); intros H; inversion H; reflexivity.
+  - pose proof (poll_items_ready _ Hr) as Hn.
+    destruct (poll_items (map (fun it => (it, IFresh)) (p_items pl))) as [[[its es] tr0] j]. simpl in Hn.
+    destruct j; [intros H; inversion H; reflexivity|congruence|].
+    destruct (p_catch pl); intros H; inversion H; reflexivity.
+Qed.
+
+Lemma poll_stream_ready i c s shared s' sh tr ran bad o :
+  ready_conf c -> s_exec s = None ->
+  poll_stream i c s shared = (s', sh, tr, ran, bad, o) -> s_exec s' = None.
+Proof.
+  intros Hc Hs. unfold poll_stream.
+  destruct (s_dead s); [intros H; inversion H; subst; exact Hs|].
+  destruct (s_errpending s); [intros H; inversion H; subst; exact Hs|].
+  destruct (negb (s_started s) && c_fail c); [intros H; inversion H; subst; exact Hs|].
+  rewrite Hs.
+  destruct (s_chan s) as [|ev r].
+  - destruct (s_closed s); intros H; inversion H; reflexivity.
+  - match goal with |- context [run_exec i s r ?x shared] => destruct (run_exec i s r x shared) as [[[s1 sh1] tr1] o1] eqn:Er end.
+    intros H; inversion H; subst. eapply run_exec_ready; [apply Hc|exact Er].
+Qed.
+
+Definition Ready (st : state) : Prop :=
+  existsb busy (st_ss st) = false /\ Forall (fun cs => ready_conf (fst cs)) (st_ss st).
+
+Lemma poll_head_ready st st' os :
+  Ready st -> poll_head st = (st', os) -> Ready st' /\ st_overlap st' = st_overlap st.
+Proof.
+  unfold poll_head. intros [Hb Hc].
+  destruct (st_queue st) as [|i q]; [intros H; inversion H; subst; split; [split; assumption|reflexivity]|].
+  destruct (split_at i (st_ss st)) as [[[pre [c s]] post]|] eqn:Es.
+  2:{ intros H; inversion H; subst. split; [split; assumption|reflexivity]. }
+  apply split_at_spec in Es. rewrite Es in Hb, Hc.
+  rewrite existsb_app in Hb. simpl in Hb. apply orb_false_iff in Hb. destruct Hb as [Hpre Hb].
+  apply orb_false_iff in Hb. destruct Hb as [Hs Hpost].
+  apply Forall_app in Hc. destruct Hc as [Cpre Cr]. inversion Cr as [|? ? Cc Cpost]; subst.
+  destruct (poll_stream i c s (st_shared st)) as [[[[[s' sh] tr] ran] bad] o] eqn:Ep.
+  assert (Hs' : s_exec s' = None).
+  { eapply poll_stream_ready; [exact Cc| |exact Ep]. unfold busy in Hs. simpl in Hs. destruct (s_exec s); [discriminate|reflexivity]. }
+  assert (HR : existsb busy (pre ++ (c, s') :: post) = false).
+  { rewrite existsb_app. simpl. rewrite Hpre, Hpost. unfold busy. simpl. rewrite Hs'. reflexivity. }
+  assert (HC : Forall (fun cs => ready_conf (fst cs)) (pre ++ (c, s') :: post)).
+  { apply Forall_app. split; [exact Cpre|]. constructor; [exact Cc|exact Cpost]. }
+  destruct o; intros H; inversion H; subst; simpl; rewrite Hpre, Hpost; simpl;
+    rewrite andb_false_r, orb_false_r; (split; [split; assumption|reflexivity]).
+Qed.
+
+Lemma drain_ready : forall fuel st st' os,
+  Ready st -> drain fuel st = (st', os) -> Ready st' /\ st_overlap st' = st_overlap st.
+Proof.
+  induction fuel as [|f IH]; intros st st' os HR; simpl.
+  { intros H; inversion H; subst. split; [exact HR|reflexivity]. }
+  destruct (st_queue st) eqn:Eq.
+  { intros H; inversion H; subst. split; [exact HR|reflexivity]. }
+  destruct (poll_head st) as [st1 o1] eqn:E1.
+  destruct (drain f st1) as [st2 o2] eqn:E2.
+  intros H; inversion H; subst.
+  destruct (poll_head_ready _ _ _ HR E1) as [R1 O1].
+  destruct (IH _ _ _ R1 E2) as [R2 O2].
+  split; [exact R2|congruence].
+Qed.
+
+Lemma upd_stream_ready st i f :
+  (forall c s, s_exec s = None -> s_exec (fst (f c s)) = None) ->
+  Ready st -> Ready (upd_stream st i f).
+Proof.
+  intros Hf [Hb Hc]. unfold upd_stream.
+  destruct (split_at i (st_ss st)) as [[[pre [c s]] post]|] eqn:Es; [|split; assumption].
+  apply split_at_spec in Es. rewrite Es in Hb, Hc.
+  rewrite existsb_app in Hb. simpl in Hb. apply orb_false_iff in Hb. destruct Hb as [Hpre Hb].
+  apply orb_false_iff in Hb. destruct Hb as [Hs Hpost].
+  apply Forall_app in Hc. destruct Hc as [Cpre Cr]. inversion Cr as [|? ? Cc Cpost]; subst.
+  specialize (Hf c s). destruct (f c s) as [s' wake]. simpl in Hf.
+  split; simpl.
+  - rewrite existsb_app. simpl. rewrite Hpre, Hpost. unfold busy in *. simpl in *.
+    destruct (s_exec s); [discriminate|]. rewrite (Hf eq_refl). reflexivity.
+  - apply Forall_app. split; [exact Cpre|]. constructor; [exact Cc|exact Cpost].
+Qed.
+
+Lemma step_ready st a st' os :
+  Ready st -> step st a = (st', os) -> Ready st' /\ st_overlap st' = st_overlap st.
+Proof.
+  intros HR. destruct a as [k ev|k|k c|]; simpl.
+  - intros H; inversion H; subst. destruct (find_key k (st_ss st)); [|split; [exact HR|reflexivity]].
+    split; [|apply upd_stream_shape]. apply upd_stream_ready; [|exact HR].
+    intros c s Hs. destruct (s_dead s || s_closed s || s_errpending s); exact Hs.
+  - intros H; inversion H; subst. destruct (find_key k (st_ss st)); [|split; [exact HR|reflexivity]].
+    split; [|apply upd_stream_shape]. apply upd_stream_ready; [|exact HR].
+    intros c s Hs. destruct (s_dead s || s_closed s || s_errpending s); exact Hs.
+  - intros H; inversion H; subst. destruct (find_key k (st_ss st)); [|split; [exact HR|reflexivity]].
+    split; [|apply upd_stream_shape]. apply upd_stream_ready; [|exact HR].
+    intros c0 s Hs. rewrite Hs. exact Hs.
+  - destruct (st_done st); [intros H; inversion H; subst; split; [exact HR|reflexivity]|].
+    destruct (drain (drain_fuel st) st) as [st1 os1] eqn:Ed.
+    destruct (drain_ready _ _ _ _ HR Ed) as [R1 O1].
+    destruct (all_dead st1 && match st_queue st1 with [] => true | _ => false end);
+      intros H; inversion H; subst; simpl; (split; [exact R1|exact O1]).
+Qed.
+
+Lemma run_ready : forall acts st st' oss,
+  Ready st -> run st acts = (st', oss) -> st_overlap st' = st_overlap st.
+Proof.
+  induction acts as [|a r IH]; intros st st' oss HR; simpl.
+  { intros H; inversion H; subst. reflexivity. }
+  destruct (step st a) as [st1 os] eqn:E1.
+  destruct (run st1 r) as [st2 oss2] eqn:E2.
+  intros H; inversion H; subst.
+  destruct (step_ready _ _ _ _ HR E1) as [R1 O1].
+  rewrite (IH _ _ _ R1 E2). exact O1.
+Qed.
+
+Theorem ready_no_overlap cfg acts :
+  Forall ready_conf cfg -> st_overlap (fst (run (init cfg) acts)) = false.
+Proof.
+  intros HC. destruct (run (init cfg) acts) as [st oss] eqn:E. simpl.
+  assert (HR0 : Ready (init cfg)).
+  2:{ rewrite (run_ready _ _ _ _ HR0 E). reflexivity. }
+  split; simpl.
+  - clear. induction cfg as [|c l IH]; [reflexivity|exact IH].
+  - clear E. induction HC as [|c l Hc _ IH]; simpl; constructor; assumption.
+Qed.
+
+(* ------------------------------------- the instantiation without gates --- *)
+Lemma items_of_ungated q S w frags vars vdefs : forall occs n k rt nid its,
+  items_of q S w frags vars vdefs [] n k rt nid occs = Some its ->
+  forallb (fun it => negb (it_gated it)) its = true.
+Proof.
+  induction occs as [|o r IH]; intros n k rt nid its.
+  { destruct n; simpl; intros H; inversion H; reflexivity. }
+  destruct n as [|n']; simpl; [discriminate|].
+  destruct (i_field q S w frags vars vdefs n' rt nid o [PF k]) as [[[v es] tr]| | |]; try discriminate.
+  destruct (items_of q S w frags vars vdefs [] n' k rt nid r) as [l|] eqn:E; [|discriminate].
+  intros H; inversion H; subst. simpl. apply (IH _ _ _ _ _ E).
+Qed.
+
+Lemma mk_plan_ready q S w frags vars vdefs n k t sub ev :
+  ready_plan (mk_plan q S w frags vars vdefs [] n k t sub ev).
+Proof.
+  unfold ready_plan, mk_plan.
+  assert (Hd : forall r : outcome isres,
+             forallb (fun it => negb (it_gated it))
+               (p_items match r with
+                        | Ok r0 => {| p_key := k; p_catch := negb (is_nonnull t); p_direct := Some r0; p_items := []; p_fuel := O; p_bad := false |}
+                        | _ => bad_plan k
+                        end) = true).
+  { intros [r0| | |]; reflexivity. }
+  destruct (strip_nn t); try apply Hd.
+  destruct (ev_outv S t ev); try apply Hd.
+  destruct (node_ty w nid); [|apply Hd].
+  destruct (if is_nonnull t then Nat.pred (Nat.pred n) else Nat.pred n) as [|n2]; [reflexivity|].
+  destruct (occs_of q S frags vars vdefs n2 _ n1 sub) as [occs| | |]; try reflexivity.
+  destruct (items_of q S w frags vars vdefs [] n2 k n1 nid occs) as [its|] eqn:E; [|reflexivity].
+  simpl. eapply items_of_ungated; exact E.
+Qed.
+
+Lemma root_streams_ready q S w frags vars vdefs n sub failc : forall sels cfg,
+  root_streams q S w frags vars vdefs [] n sub failc sels = Some cfg -> Forall ready_conf cfg.
+Proof.
+  induction sels as [|s r IH]; intros cfg; simpl.
+  { intros H; inversion H; constructor. }
+  destruct (root_streams q S w frags vars vdefs [] n sub failc r) as [rest|]; [|discriminate].
+  specialize (IH _ eq_refl).
+  destruct s as [al nm args dirs ss| |]; try (intros H; inversion H; subst; exact IH).
+  destruct (i_skipped q vars vdefs dirs) as [[|]|]; try discriminate.
+  { intros H; inversion H; subst; exact IH. }
+  destruct (obj_field_ty S sub nm); [|discriminate].
+  intros H; inversion H; subst. constructor; [|exact IH].
+  intros ev. simpl. apply mk_plan_ready.
+Qed.
+
+Lemma sub_cfg_ready q S w d c n cfg :
+  g_gated c = [] -> sub_cfg q S w d c n = Some cfg -> Forall ready_conf cfg.
+Proof.
+  unfold sub_cfg. intros Hg. rewrite Hg.
+  destruct (select_op d None) as [o|]; [|discriminate].
+  destruct (op_ty o); try discriminate.
+  apply root_streams_ready.
+Qed.
+
+(* what a client sees *)
+Definition responses_today (cfg : list sconf) (acts : list action) : list (list obs) :=
+  map (map view_today) (snd (run (init cfg) acts)).
+Definition responses_own (cfg : list sconf) (acts : list action) : list (list obs) :=
+  map (map view_own) (snd (run (init cfg) acts)).
+Definition overlapped (cfg : list sconf) (acts : list action) : bool := st_overlap (fst (run (init cfg) acts)).
+
+Theorem atomic_responses cfg acts : overlapped cfg acts = false -> responses_today cfg acts = responses_own cfg acts.
+Proof. intros H. apply atomic_run. exact H. Qed.
+
+Theorem atomic_single cfg acts : (length cfg <= 1)%nat -> responses_today cfg acts = responses_own cfg acts.
+Proof. intros H. apply atomic_responses. apply single_stream_no_overlap. exact H. Qed.
+
+Theorem atomic_ready q S w d c n cfg acts :
+  g_gated c = [] -> sub_cfg q S w d c n = Some cfg -> responses_today cfg acts = responses_own cfg acts.
+Proof.
+  intros Hg Hc. apply atomic_responses. apply ready_no_overlap. eapply sub_cfg_ready; eassumption.
+Qed.
+
+(* the errors of the corrected view are the event's own, by construction of the machine:
+   [o_own] of a response is the concatenation of what its execution's polls raised *)
+
+(* ------------------------------------------------------- query via stream --- *)
+Theorem query_via_stream q S w d opname vars n r :
+  impl_exec q S w d opname vars n = Ok r ->
+  stream_of_query q S w d opname vars n = Ok [ORes (rs_data r) (rs_errors r); OEnd].
+Proof. unfold stream_of_query. intros ->. reflexivity. Qed.
+
+Theorem stream_of_query_shape q S w d opname vars n l :
+  stream_of_query q S w d opname vars n = Ok l -> exists dd es, l = [ORes dd es; OEnd].
+Proof.
+  unfold stream_of_query. destruct (impl_exec q S w d opname vars n); simpl; try discriminate.
+  intros H; inversion H. eauto.
+Qed.
+
+(* ------------------------------------------------------------------ witness --- *)
+(* names: types 10 Query, 11 A, 12 B, 15 Int, 17 String, 18 Sub;
+   fields 20 a, 23 id, 24 name, 30 fa, 31 fb *)
+Definition w_fields : list (name * ty) :=
+  [ (20, TNamed 11); (23, TNonNull (TNamed 15)); (24, TNamed 17) ].
+Definition w_schema : schema :=
+  {| s_types := [ (10, DObject w_fields []); (11, DObject w_fields []); (12, DObject w_fields []);
+                  (15, DScalar 0); (17, DScalar 2);
+                  (18, DObject [(30, TNonNull (TNamed 11)); (31, TNonNull (TNamed 12))] []) ];
+     s_query := 10; s_mutation := None;
+     s_tname := [(10, [81]); (11, [65]); (12, [66]); (18, [83])] |}.
+Definition w_world : world :=
+  {| w_nodes := [ (0, {| n_ty := 10; n_fields := [] |});
+                  (2, {| n_ty := 11; n_fields := [(20, ORef 5)] |});
+                  (3, {| n_ty := 12; n_fields := [] |});
+                  (5, {| n_ty := 11; n_fields := [(24, OErr)] |}) ];
+     w_defaults := []; w_idname := 23 |}.
+Definition wfld (nm : name) (sub : list selection) : selection := SField None nm [] [] sub.
+(* subscription { fa { a { name } id } fb { id } } *)
+Definition w_doc : document :=
+  {| doc_ops := [ {| op_name := None; op_ty := OpSubscription; op_vars := []; op_dirs := [];
+                     op_sels := [wfld 30 [wfld 20 [wfld 24 []]; wfld 23 []]; wfld 31 [wfld 23 []]] |} ];
+     doc_frags := [] |}.
+Definition w_gates : subcfg := {| g_sub := 18; g_gated := [(30, 23)]; g_failcreate := [] |}.
+Definition w_nogates : subcfg := {| g_sub := 18; g_gated := []; g_failcreate := [] |}.
+(* push fa A(2); poll; push fb B(3); poll; open gate fa/id; poll *)
+Definition w_sched : list action := [APush 30 (Some 2); APoll; APush 31 (Some 3); APoll; AOpen 30 23; APoll].
+
+Definition resp_fa : value := VObj [(30, VObj [(20, VNull); (23, VInt 2)])].
+Definition resp_fb : value := VObj [(31, VObj [(23, VInt 3)])].
+Definition err_fa : path := [PF 30; PF 20; PF 24].
+
+Definition with_cfg {A} (c : subcfg) (f : list sconf -> A) : option A :=
+  match sub_cfg quirks_today w_schema w_world w_doc c 50 with Some cfg => Some (f cfg) | None => None end.
+
+Lemma witness_interleaved :
+  with_cfg w_gates (fun cfg => (length cfg, overlapped cfg w_sched, responses_today cfg w_sched, responses_own cfg w_sched)) =
+  Some (2%nat, true,
+        [[]; [ORes resp_fb [err_fa]]; [ORes resp_fa []]],
+        [[]; [ORes resp_fb []]; [ORes resp_fa [err_fa]]]).
+Proof. vm_compute. reflexivity. Qed.
+
+(* non-vacuity of the atomic theorem: same request, ready resolvers: no overlap,
+   two responses, the error is delivered with its own event *)
+Lemma witness_atomic :
+  with_cfg w_nogates (fun cfg => (overlapped cfg w_sched, responses_today cfg w_sched)) =
+  Some (false, [[ORes resp_fa [err_fa]]; [ORes resp_fb []]; []]).
+Proof. vm_compute. reflexivity. Qed.
